@@ -191,6 +191,71 @@ def op_lim(rng):
     return "lim %s %s %s" % (b(mid), b(L), b(R)), kind
 
 
+def op_slim(rng):
+    """a cell, its (unlimited) gradients and the min / max of its face neighbours as the gradient sweeps leave them"""
+    g = rng.choice(GAMMAS)
+    dx = [logu(rng, -3, 3) * f for f in (1.0, rng.choice([1.0, 0.5, 3.0]), rng.choice([1.0, 2.0, 0.1]))]
+    W = rand_prim(rng, logu(rng, -28, 2), logu(rng, -22, 5), g, rng.choice([0.0, 0.3, 3.0]))
+    kind = rng.choice(["smooth", "smooth", "jump", "extremum", "extremum", "flat", "equal-one-side", "zero-gradient"])
+    cs = math.sqrt(g * W[4] / W[0])
+    nbs = []
+    for n in range(6):
+        if kind == "smooth":
+            N = [W[0] * rng.uniform(0.8, 1.25)] + [W[1 + k] + rng.gauss(0, 0.1) * cs for k in range(3)] + [W[4] * rng.uniform(0.8, 1.25)]
+        elif kind == "jump":
+            N = rand_prim(rng, W[0], W[4], g, 1.0) if rng.random() < 0.5 else list(W)
+        elif kind == "extremum":       # the cell is a local maximum (or minimum) of every variable
+            up = n < 0
+            N = [W[0] * rng.uniform(0.2, 0.9)] + [W[1 + k] - abs(rng.gauss(0, 0.3) * cs) - 1e-3 * cs for k in range(3)] + [W[4] * rng.uniform(0.2, 0.9)]
+        elif kind == "flat":
+            N = list(W)
+        elif kind == "equal-one-side":
+            N = list(W) if n % 2 == 0 else [W[0] * rng.uniform(1.0, 2.0)] + [W[1 + k] + abs(rng.gauss(0, 0.3)) * cs for k in range(3)] + [W[4] * rng.uniform(1.0, 2.0)]
+        else:
+            N = rand_prim(rng, W[0], W[4], g, 0.5)
+        nbs.append(N)
+    if kind == "extremum" and rng.random() < 0.5:      # local minimum instead
+        nbs = [[2 * W[j] - N[j] if j in (1, 2, 3) else W[j] * W[j] / N[j] for j in range(5)] for N in nbs]
+    grad = []
+    for j in range(5):
+        for c in range(3):
+            if kind == "zero-gradient" or (kind == "flat"):
+                grad.append(0.0)
+            else:
+                # what the sweeps accumulate: (W+ - W-) / (2 dx); sometimes an arbitrary value
+                grad.append((nbs[2 * c][j] - nbs[2 * c + 1][j]) / (2 * dx[c]) if rng.random() < 0.85 else rng.uniform(-3, 3) * (abs(W[j]) + (cs if 1 <= j <= 3 else 0)) / dx[c])
+    lim = []
+    for j in range(5):
+        lim += [min(N[j] for N in nbs), max(N[j] for N in nbs)]
+    return "slim %s %s %s %s" % (" ".join(b(x) for x in dx), " ".join(b(x) for x in W), " ".join(b(x) for x in grad), " ".join(b(x) for x in lim)), kind
+
+
+def op_pred(rng):
+    g = rng.choice(GAMMAS) if rng.random() < 0.8 else rng.uniform(1.01, 2.0)
+    dx = logu(rng, -3, 3)
+    W = rand_prim(rng, logu(rng, -28, 2), logu(rng, -22, 5), g, rng.choice([0.0, 0.3, 3.0]))
+    cs = math.sqrt(g * W[4] / W[0])
+    vmax = max(abs(x) for x in W[1:4]) + cs
+    kind = rng.choice(["limited", "limited", "limited", "steep", "overdriven", "empty", "subnormal", "gravity"])
+    dt = 0.5 * 0.2 * 0.62 * dx / vmax
+    amp = 1.0
+    if kind == "steep":
+        amp = rng.choice([5.0, 20.0])
+    elif kind == "overdriven":
+        dt *= rng.choice([5.0, 30.0])
+    grad = []
+    for j in range(5):
+        sc = abs(W[j]) if j in (0, 4) else cs
+        for c in range(3):
+            grad.append(rng.uniform(-1, 1) * amp * sc / dx * rng.choice([1.0, 1.0, 0.1, 0.0]))
+    if kind == "empty":
+        W = [0.0] + W[1:4] + [rng.choice([0.0, W[4]])]
+    elif kind == "subnormal":
+        W[0] = rng.choice([2.0 ** -1024, 2.0 ** -1025, 2.0 ** -1024 + 2.0 ** -1074, 2.0 ** -1023, 5e-324, 2.0 ** -1030])
+    acc = [rng.gauss(0, 1) * cs / dt * 0.1 for _ in range(3)] if kind == "gravity" else [0.0, 0.0, 0.0]
+    return "pred %s %s %s %s %s" % (b(g), b(dt), " ".join(b(x) for x in W), " ".join(b(x) for x in grad), " ".join(b(x) for x in acc)), kind
+
+
 def op_ucons(rng):
     g = rng.choice(GAMMAS)
     vol = logu(rng, -6, 6)
@@ -239,8 +304,8 @@ def op_uprim(rng):
 
 def cell_ops(ctx, n):
     ops = []
-    gens = [(op_flux, 0.30), (op_gflux, 0.16), (lambda r: op_grad(r, False), 0.1), (lambda r: op_grad(r, True), 0.06),
-            (op_lim, 0.14), (op_ucons, 0.12), (op_uprim, 0.12)]
+    gens = [(op_flux, 0.26), (op_gflux, 0.14), (lambda r: op_grad(r, False), 0.08), (lambda r: op_grad(r, True), 0.05),
+            (op_lim, 0.12), (op_ucons, 0.09), (op_uprim, 0.09), (op_slim, 0.09), (op_pred, 0.08)]
     for _ in range(n):
         x = ctx.rng.random()
         for gfn, p in gens:
@@ -846,6 +911,9 @@ def run(ctx):
         "finiteness (NaN/Inf) is a floating-point notion: searched on the real runs and cell-level cases, not proved",
         "the CFL time step is the one the code chooses; the theorems hold for every dt",
         "the Riemann solver is uninterpreted in the conservation theorems (any flux function); only reflective walls use C05's HLLC model",
+        "slope limiter, per-face limiter, face reconstruction and half-step prediction are modelled statement by statement (bit-exact at Float level); the conservation / layout / schedule theorems hold for any per-cell limiter and prediction and are instantiated with them (…_code theorems)",
+        "limiter_bounds needs `neighbour minimum <= neighbour maximum` (true once one gradient call has touched the cell); at a local extremum the code's alpha is negative and face values may lie beyond the extremum (theorem limiter_overshoots_local_extremum) - non-negativity of the face densities/pressures comes from Hydro::limit, not from the slope limiter",
+        "the predicted density/pressure are only non-negative thanks to the clamps (theorem predict_needs_clamp); how often the clamp acts on generated states is reported in coverage.predict_clamp_by_kind",
         "other boundary types (inflow, outflow, Bondi) are not modelled",
     ]
     ok = ctx.obligations("CMacVerif.Props.C04", ["drv_c04"])
@@ -853,7 +921,7 @@ def run(ctx):
     drv = vlib.driver("drv_c04")
     ctx.cov["tolerance"] = {"cell_level_relative": TOL_CELL, "totals_relative_per_face": TOL_TOTAL}
     ctx.cov["rule"] = ("cell level: generated state pairs (smooth / jump / identical / vacuum / near-vacuum / ties, limiter-firing cells, 28 decades of density) through "
-                       "Hydro::limit, do_flux_calculation, do_ghost_flux_calculation, do_(ghost_)gradient_calculation, update_conserved_variables, set_primitive_variables vs the Float model; "
+                       "Hydro::limit, do_flux_calculation, do_ghost_flux_calculation, do_(ghost_)gradient_calculation, update_conserved_variables, set_primitive_variables, apply_slope_limiter, predict_primitive_variables vs the Float model; "
                        "runs: real pure-hydro steps of the hooked binary on random layouts (1..3 subgrids/axis, 2..6 cells/subgrid, periodic / reflective / mixed, 1/2/4/8 threads, "
                        "smooth / jump / blast / near-vacuum / random / supersonic initial states, CFL factor 0.2 (default), 0.9 and overdriven 2.5 / 6 to make the positivity clamps fire): per-call log vs the Lean sweep lists, faces-exactly-once, totals, non-negativity, finiteness; "
                        "distinct = (layout, cells, periodicity, kind, threads); non-trivial = more than one subgrid")
@@ -870,6 +938,20 @@ def run(ctx):
         if "#" in m:
             ctx.branch(m.split("#")[-1].strip())
     ctx.cov["bit_exact_rate"] = round(exact / max(1, len(ops)), 6)
+    # how often does the prediction need its clamp?  (model tag 2 + 4 density + 8 pressure)
+    pk = collections.defaultdict(lambda: [0, 0])
+    for op, m in zip(ops, model):
+        if op.startswith("pred ") and "#pr" in m:
+            t = int(m.split("#pr")[-1])
+            w = op.split()
+            dt, rho = vlib.bits2f(w[2]), vlib.bits2f(w[3])
+            P = vlib.bits2f(w[7])
+            vmax = max(abs(vlib.bits2f(x)) for x in w[4:7])
+            gmax = max(abs(vlib.bits2f(x)) for x in w[11:20])          # velocity gradients
+            key = "dt*|grad v| < 0.1" if dt * gmax < 0.1 else ("dt*|grad v| < 0.3" if dt * gmax < 0.3 else "dt*|grad v| >= 0.3")
+            pk[key][0] += 1
+            pk[key][1] += 1 if t >= 6 else 0
+    ctx.cov["predict_clamp_by_kind"] = {k: {"cases": v[0], "clamp_acted": v[1]} for k, v in sorted(pk.items())}
     for i, op in enumerate(ops[:3]):
         ctx.sample({"op": op[:120] + "...", "impl": impl[i][:100] if i < len(impl) else None})
     # ---- real runs
@@ -906,6 +988,6 @@ def replay(ctx, path):
 
 MANIFEST = dict(
     category="proof",
-    text="Lean theorems, for EVERY subgrid layout nx x ny x nz, every number of cells per subgrid (>= 1 per axis), every periodicity: the internal sweeps and the pair sweeps of all subgrids together visit every face of the global cell grid exactly once (permutation of the plain list of faces), the boundary sweeps every box-boundary face exactly once; one face subtracts F from the left and adds the same F to the right cell, F = one common factor in [0,1] times area times the Riemann flux (the limiter's use of the left momentum in the right-cell test does not matter); hence in a periodic box the sums of mass, momentum and energy over all cells do not change in a step as long as no positivity clamp fires, for ANY flux function, any dt, any state; at a reflective wall the mirror ghost state gives zero mass and energy flux when the reconstructed normal velocity is below 1.5 c_s (C05's HLLC model); after the clamps mass, energy, density, pressure are >= 0. Tied to the code by bit-level agreement of the Float model with Hydro::limit / do_flux_calculation / do_ghost_flux_calculation / gradient calls / update_conserved_variables / set_primitive_variables, by the per-call log (addresses of the states actually passed) of real multi-thread steps against the Lean sweep lists, and by the conservation / non-negativity / finiteness oracles on the real runs.",
+    text="Lean theorems, for EVERY subgrid layout nx x ny x nz, every number of cells per subgrid (>= 1 per axis), every periodicity: the internal sweeps and the pair sweeps of all subgrids together visit every face of the global cell grid exactly once (permutation of the plain list of faces), the boundary sweeps every box-boundary face exactly once; one face subtracts F from the left and adds the same F to the right cell, F = one common factor in [0,1] times area times the Riemann flux (the limiter's use of the left momentum in the right-cell test does not matter); hence in a periodic box the sums of mass, momentum and energy over all cells do not change in a step as long as no positivity clamp fires, for ANY flux function, any dt, any state; at a reflective wall the mirror ghost state gives zero mass and energy flux when the reconstructed normal velocity is below 1.5 c_s (C05's HLLC model); after the clamps mass, energy, density, pressure are >= 0; the reconstruction is modelled too: after apply_slope_limiter every extrapolation to a face is at most half the smaller distance of the cell value to the neighbour minimum / maximum (inside the neighbour range when the cell value is; beyond a local extremum otherwise: proved counterexample), Hydro::limit clips the face value to an interval that never passes 3/4 of the way to the other cell and returns a non-negative value for non-negative cells (so the face clamps never act), predict_primitive_variables keeps density and pressure >= 0 only through its clamps (proved counterexample without). Tied to the code by bit-level agreement of the Float model with Hydro::limit / do_flux_calculation / do_ghost_flux_calculation / gradient calls / apply_slope_limiter / predict_primitive_variables / update_conserved_variables / set_primitive_variables, by the per-call log (addresses of the states actually passed) of real multi-thread steps against the Lean sweep lists, and by the conservation / non-negativity / finiteness oracles on the real runs.",
     note="Trusted: Lean kernel + 3 axioms; hand model of the sweeps and of Hydro.hpp (bit-exact on all generated cases); exact real arithmetic in the theorems (round-off bounded empirically: 1e-12 x number of faces on the totals); finiteness only searched; CFL step taken from the code; only periodic and reflective boundaries; gamma > 1 branch of set_primitive_variables.",
     technique="Lean 4 proof (permutation of face lists for all layouts; algebraic conservation over an uninterpreted flux; HLLC mirror lemma of C05 for walls) + Float-model differential testing of the real cell-level functions + trace/oracle checks on runs of the real hooked binary")
